@@ -512,7 +512,8 @@ var clockFuncs = map[string]string{"time.Now": "Now", "time.Since": "Since", "ti
 var syncMethods = map[string]string{
 	"sync.Mutex.Lock": "MutexLock", "sync.Mutex.Unlock": "MutexUnlock", "sync.Mutex.TryLock": "MutexTryLock",
 	"sync.RWMutex.Lock": "RWLock", "sync.RWMutex.Unlock": "RWUnlock", "sync.RWMutex.RLock": "RWRLock", "sync.RWMutex.RUnlock": "RWRUnlock",
-	"sync.Once.Do": "OnceDo",
+	"sync.Once.Do":  "OnceDo",
+	"sync.Pool.Get": "PoolGet", "sync.Pool.Put": "PoolPut",
 }
 
 func (fi *fileInstr) rewriteCall(call *ast.CallExpr) {
@@ -566,7 +567,7 @@ func (fi *fileInstr) rewriteCall(call *ast.CallExpr) {
 			report.UnmodelledSync = append(report.UnmodelledSync, fi.where(call.Pos())+": "+key+" on a receiver that is not a plain path")
 			return
 		}
-		if obj.Name() == "Do" {
+		if obj.Name() == "Do" || obj.Name() == "Put" {
 			fi.replace(call.Pos(), call.Lparen+1, "simrt."+syncMethods[key]+"("+ptr+", ")
 		} else {
 			fi.replace(call.Pos(), call.Lparen+1, "simrt."+syncMethods[key]+"("+ptr)
@@ -1006,7 +1007,7 @@ func (fi *fileInstr) callAccesses(call *ast.CallExpr, r *recSet) {
 								r.add("w", call, "simrt.W(%d, "+ptr+")", ptr)
 							}
 						}
-					case named.Obj().Pkg().Path() == "sync/atomic" || tn == "sync.Map" || tn == "sync.Pool":
+					case named.Obj().Pkg().Path() == "sync/atomic" || tn == "sync.Map":
 						if ptr, ok := fi.recvPtr(sel); ok {
 							r.add("sync", call, "simrt.AtomicOp(%d, "+ptr+")", ptr)
 						} else {
